@@ -20,9 +20,25 @@ def run_seq_py(P, limit, ops):
     c2 = P.ParseCache(2)
     c2[("z", 9)] = 99
     obs = []
+    copies = []
     for op in ops:
         kind = op[0]
         try:
+            if kind == "copy":
+                # a cache that came into being by copying / unpickling is a live cache like any other
+                import copy
+                import pickle
+                cx = copy.deepcopy(c) if op[1] == 0 else copy.copy(c) if op[1] == 1 else pickle.loads(pickle.dumps(c))
+                if op[1] == 1:
+                    cx.dict = type(c.dict)(c.dict)      # a shallow copy shares the entry table: give it its own
+                cx[("copy", len(copies))] = 1
+                try:
+                    cx[("s", 0)]
+                except KeyError:
+                    pass
+                copies.append(cx)
+                obs.append("copied")
+                continue
             if kind == "get":
                 out = "some %d" % c[("s", op[1])]
             elif kind == "set":
@@ -50,6 +66,8 @@ def run_seq_py(P, limit, ops):
             st += f" LEN={n}"
         if kind == "clear" and (len(c2) != 0 or c2.hits != 0 or c2.misses != 0):
             st += " OTHER-CACHE-NOT-CLEARED"
+        if kind == "clear" and any(len(cx) != 0 or cx.hits != 0 or cx.misses != 0 for cx in copies):
+            st += " COPIED-CACHE-NOT-CLEARED"
         obs.append(st)
     return obs
 
@@ -69,6 +87,50 @@ def seq_lines(limit, ops):
         elif op[0] == "bump":
             lines.append("cache bump")
             lines.append("cache 0 show")
+        elif op[0] == "copy":
+            lines.append("cache copy 0")
+    return lines
+
+
+def run_parse_py(P, limit, ops):
+    """The cache as the PARSERS use it: a real Repetition (1*"a") built under ParseCache.max_cache_size = limit is asked
+    to parse "a"*(k+1) at offset 0 - one lookup and, after a miss, one store under key k; the cache is observed after
+    every request."""
+    P.ParseCache.max_cache_size = limit
+    try:
+        rep = P.Repetition(P.Repeat(1, None), P.Literal("a"))
+    finally:
+        P.ParseCache.max_cache_size = None
+    c = rep.lparse_cache
+    obs = []
+    for op in ops:
+        if op[0] == "req":
+            h0 = c.hits
+            try:
+                got = [m.start for m in rep.lparse("a" * (op[1] + 1), 0)]
+                out = ("hit" if c.hits > h0 else "miss") if got == list(range(op[1] + 1, 0, -1)) else "WRONG-RESULT %r" % (got,)
+            except Exception as e:  # noqa
+                out = "exc:" + type(e).__name__
+        elif op[0] == "clear":
+            P.ParseCache.clear_caches()
+            out = "done"
+        else:
+            P.ParseCache.invalidate()
+            out = "done"
+        keys = [len(k[0]) - 1 for k in list(c)]
+        obs.append(f"{out} |" + "".join(f" {k}" for k in keys) + f" | {c.hits} {c.misses}")
+    return obs
+
+
+def parse_lines(limit, ops):
+    lines = ["xreset", "cache new %s" % ("-" if limit is None else limit)]
+    for op in ops:
+        if op[0] == "req":
+            lines.append(f"cache 0 req {op[1]} 1")
+        elif op[0] == "clear":
+            lines += ["cache clear", "cache 0 show"]
+        else:
+            lines += ["cache bump", "cache 0 show"]
     return lines
 
 
@@ -80,6 +142,9 @@ def model_obs(ops, out):
         if op[0] in ("clear", "bump"):
             res.append("done " + out[pos + 1][len("state "):])
             pos += 2
+        elif op[0] == "copy":
+            res.append("copied")
+            pos += 1
         else:
             res.append(out[pos])
             pos += 1
@@ -129,13 +194,24 @@ def run(ctx):
                 seq.append(("get", k))
                 if rng.random() < 0.8:
                     seq.append(("set", k, None))
+            elif rng.random() < 0.08:
+                seq.append(("copy", rng.randrange(3)))
             else:
                 seq.append(rng.choice(alph4))
         cases.append((limit, concretise(seq)))
+    n_direct = len(cases)
+    # the cache as the parsers drive it (whatever entry point of ParseCache Repetition.lparse uses)
+    for _ in range(ctx.budget(1500, 20000)):
+        limit = rng.choice([None, 1, 2, 3, 4])
+        seq = []
+        for _ in range(rng.randint(5, 16)):
+            u = rng.random()
+            seq.append(("req", rng.randrange(5)) if u < 0.86 else ("clear",) if u < 0.93 else ("bump",))
+        cases.append((limit, seq))
     # real code
     gen0 = P.ParseCache.generation
-    py = [run_seq_py(P, limit, ops) for limit, ops in cases]
-    blocks = [seq_lines(limit, ops) for limit, ops in cases]
+    py = [run_seq_py(P, limit, ops) if k < n_direct else run_parse_py(P, limit, ops) for k, (limit, ops) in enumerate(cases)]
+    blocks = [seq_lines(limit, ops) if k < n_direct else parse_lines(limit, ops) for k, (limit, ops) in enumerate(cases)]
     # run the model in parallel chunks
     outs = lib.run_driver_parallel(blocks)
     found = False
@@ -166,9 +242,12 @@ def run(ctx):
         "evaluations": steps,
         "distinct_nontrivial": evictions,
         "rule": "all operation sequences of depth %d over 3 keys (get/set/del per key, clear, invalidate) for limits None,1,2,3 (exhaustive), plus random "
-                "sequences of 5-20 steps over 4 keys and limits None,0,1,2,3,4 dominated by lookup-then-store; state compared after every step; "
+                "sequences of 5-20 steps over 4 keys and limits None,0,1,2,3,4 dominated by lookup-then-store (with caches copied / deep-copied / "
+                "unpickled along the way: clear must reach them), plus request sequences through a real Repetition built under max_cache_size "
+                "(the cache as the parsers drive it); state compared after every step; "
                 "non-trivial = sequences that store more distinct keys than the limit (an eviction decision is exercised)" % depth,
         "samples": samples, "sequences": len(cases), "exhaustive_sequences": exhaustive_n, "exhaustive": False,
+        "sequences_through_a_real_repetition": len(cases) - n_direct,
         "disagreements_model_vs_impl": dis,
     })
     cc.conclude(ctx, 0, found)
@@ -177,8 +256,12 @@ def run(ctx):
 def replay(rp):
     P = lib.import_repo()
     ops = [tuple(o) for o in rp["ops"]]
-    pobs = run_seq_py(P, rp["limit"], ops)
-    out = lib.run_driver(seq_lines(rp["limit"], ops))
+    if any(o[0] == "req" for o in ops):
+        pobs = run_parse_py(P, rp["limit"], ops)
+        out = lib.run_driver(parse_lines(rp["limit"], ops))
+    else:
+        pobs = run_seq_py(P, rp["limit"], ops)
+        out = lib.run_driver(seq_lines(rp["limit"], ops))
     mobs = model_obs(ops, out)
     print("implementation:", pobs, "\nmodel:         ", mobs)
     return 0 if pobs == mobs else 1
